@@ -58,6 +58,7 @@ Definition run_case (c : sexp) : sexp :=
   match c with
   | L [t; A text] => run_text_case t text
   | L [t; A text; L _] => run_text_case t text          (* third field: expected tree, for the oracle only *)
+  | L [t; A text; L _; A _] => run_text_case t text     (* reference fixture: expected tree and file name *)
   | L [t; L cs; x] =>
       (* (render (choice ...) <resource>) -> (ok #text wf?) *)
       if is_sym "render" t then
